@@ -340,12 +340,1057 @@ Proof.
     + intros x Hx. unfold s1. cbn. now rewrite upd_other.
     + intros _. unfold s1. cbn. rewrite upd_same. cbn. now left.
     + rewrite Hn, Hn1. reflexivity.
-    + rewrite Ho1, Hoff. unfold s1. cbn [wd nagents b2n]. lia.
+    + rewrite Ho1, Hoff. unfold s1. cbn. lia.
     + rewrite Hd1. discriminate.
     + intros x Hx Hdx. split; [|assumption]. apply (i_j4 _ _ HC x Hdx).
-    + unfold s1 at 1 2. cbn [wd toack nagents]. intros T0 _.
+    + unfold s1 at 1 2. cbn. intros T0 _.
       destruct (i_j5 _ _ HC T0) as [x Hx]; [lia|]. exists x.
       destruct (Nat.eq_dec x t) as [->|Hxt].
       * pose proof (cf_offline_not_deferred U s HC t Hoff). congruence.
       * unfold s1. cbn. now rewrite upd_other.
+Qed.
+
+Lemma dec32_pos x : 1 <= x -> dec32 x = x - 1.
+Proof. intros H. unfold dec32. destruct (x =? 0) eqn:E; [lia|reflexivity]. Qed.
+
+Lemma core_offline U s t s' evs :
+  Core U s -> NoDup U -> In t U -> wstep t COffline s = Ok (s', evs) -> Core U s'.
+Proof.
+  intros HC ND Ht H. unfold wstep, w_step, w_offline in H.
+  destruct (acked (wa s t) =? 0) eqn:E0; [discriminate|].
+  assert (Hon : onl s t = true) by (apply onl_true; lia).
+  cbn [enter_quiescent wa wd] in H.
+  destruct (deferred (wa s t)) eqn:Ed; [discriminate|].
+  rewrite guarded_free in H by (cbn; apply HC). cbn [enter_quiescent wd wa] in H.
+  pose proof (cf_nagents_pos U s t HC Ht Hon) as Hnp.
+  rewrite (dec32_pos _ Hnp) in H.
+  assert (Hc1 : 1 <= ctr (wd s)) by apply HC.
+  destruct (negb (acked (wa s t) =? ctr (wd s))) eqn:E1.
+  - destruct (negb (acked (wa s t) + 1 =? ctr (wd s))) eqn:E2; [cbn in H; discriminate|].
+    assert (Hneed : need s t = true) by (apply need_true; lia).
+    pose proof (cf_toack_pos U s t HC Ht Hneed) as Htp.
+    pose proof (cf_not_deferred_if_toack U s HC ltac:(lia)) as Hnd.
+    destruct (toack (wd s) =? 1) eqn:E3.
+    + (* last acker: bump *)
+      cbn in H. inversion H; subst s' evs; clear H.
+      match goal with |- Core _ ?x => set (s1 := x) end.
+      assert (Ho1 : forall x, onl s1 x = if Nat.eqb x t then false else onl s x).
+      { intros x. unfold onl, s1. cbn. unfold upd. destruct (Nat.eqb x t); reflexivity. }
+      apply (core_bump U s1 (ctr (wd s))).
+      * reflexivity.
+      * assumption.
+      * reflexivity.
+      * intros x Hx. rewrite Ho1 in Hx. destruct (Nat.eqb x t) eqn:Ex; [discriminate|]. apply Nat.eqb_neq in Ex.
+        split; [apply (i_univ _ _ HC x Hx)|]. unfold s1. cbn. rewrite upd_other by assumption.
+        apply (cf_only_needer U s t HC ND Ht); [lia|assumption|assumption|assumption].
+      * unfold s1 at 1. cbn.
+        pose proof (cnt_change (onl s) (onl s1) U t ND Ht) as C.
+        assert (C' : cnt (onl s) U + b2n (onl s1 t) = cnt (onl s1) U + b2n (onl s t)).
+        { apply C. intros y Hy. rewrite Ho1. apply Nat.eqb_neq in Hy. now rewrite Hy. }
+        rewrite Ho1, Nat.eqb_refl, Hon in C'. cbn [b2n] in C'. rewrite <- (i_j3 _ _ HC) in C'. lia.
+      * unfold s1. cbn. reflexivity.
+      * intros x. unfold s1. cbn. unfold upd. destruct (Nat.eqb x t); cbn; [reflexivity|apply Hnd].
+    + (* not the last one *)
+      cbn in H. inversion H; subst s' evs; clear H.
+      match goal with |- Core _ ?x => set (s1 := x) end.
+      assert (Ho1 : onl s1 t = false) by (apply onl_false; unfold s1; cbn; now rewrite upd_same).
+      assert (Hn1 : need s1 t = false) by (apply need_false; left; unfold s1; cbn; now rewrite upd_same).
+      apply (core_upd U s s1 t HC ND Ht); try reflexivity.
+      * intros x Hx. unfold s1. cbn. now rewrite upd_other.
+      * unfold s1. cbn. rewrite upd_same. cbn. congruence.
+      * rewrite Hneed, Hn1. unfold s1. cbn. rewrite (dec32_pos _ Htp). lia.
+      * rewrite Hon, Ho1. unfold s1. cbn. lia.
+      * unfold s1. cbn. rewrite upd_same. cbn. congruence.
+      * intros x _ Hx. rewrite Hnd in Hx. discriminate.
+      * unfold s1 at 1. cbn. rewrite (dec32_pos _ Htp). intros. lia.
+  - (* already acked this period *)
+    cbn in H. inversion H; subst s' evs; clear H.
+    match goal with |- Core _ ?x => set (s1 := x) end.
+    assert (Ho1 : onl s1 t = false) by (apply onl_false; unfold s1; cbn; now rewrite upd_same).
+    assert (Hn1 : need s1 t = false) by (apply need_false; left; unfold s1; cbn; now rewrite upd_same).
+    assert (Hn : need s t = false) by (apply need_false; right; lia).
+    apply (core_upd U s s1 t HC ND Ht); try reflexivity.
+    + intros x Hx. unfold s1. cbn. now rewrite upd_other.
+    + unfold s1. cbn. rewrite upd_same. cbn. congruence.
+    + rewrite Hn, Hn1. unfold s1. cbn. lia.
+    + rewrite Hon, Ho1. unfold s1. cbn. lia.
+    + unfold s1. cbn. rewrite upd_same. cbn. congruence.
+    + intros x _ Hx. split; [apply (i_j4 _ _ HC x Hx)|]. unfold s1. cbn. rewrite upd_same. reflexivity.
+    + unfold s1 at 1 2. cbn. intros T0 Hn0. destruct (i_j5 _ _ HC T0) as [x Hx]; [lia|]. exists x.
+      destruct (Nat.eq_dec x t) as [->|Hxt]; [congruence|]. unfold s1. cbn. now rewrite upd_other.
+Qed.
+
+Lemma core_enter_quiescent U s t : Core U s -> Core U (enter_quiescent s t).
+Proof. intros HC. apply (core_ext U s); try reflexivity; [assumption|apply HC|intros; split; reflexivity]. Qed.
+
+Lemma core_qs U s t s' evs :
+  Core U s -> NoDup U -> In t U -> wstep t CQsCall s = Ok (s', evs) -> Core U s'.
+Proof.
+  intros HC ND Ht H. unfold wstep, w_step, w_qs in H.
+  destruct (acked (wa s t) =? 0) eqn:E0; [discriminate|].
+  assert (Hon : onl s t = true) by (apply onl_true; lia).
+  assert (Hc1 : 1 <= ctr (wd s)) by apply HC.
+  pose proof (cf_nagents_pos U s t HC Ht Hon) as Hnp.
+  cbn [enter_quiescent wa wd] in H.
+  destruct (deferred (wa s t)) eqn:Ed.
+  - (* holds a deferred period *)
+    destruct (i_j4 _ _ HC t Ed) as (_ & Hac & Ht0).
+    destruct (negb (acked (wa s t) =? ctr (wd s))) eqn:E1; [discriminate|].
+    destruct (acked (wa s t) <? desired (wd s)) eqn:E2.
+    + rewrite guarded_free in H by (cbn; apply HC). cbn in H. inversion H; subst s' evs; clear H.
+      match goal with |- Core _ ?x => set (s1 := x) end.
+      assert (Ho1 : forall x, onl s1 x = onl s x).
+      { intros x. unfold onl, s1. cbn. unfold upd. destruct (Nat.eqb x t) eqn:Ex; [|reflexivity].
+        apply Nat.eqb_eq in Ex. subst x. reflexivity. }
+      apply (core_bump U s1 (ctr (wd s))).
+      * reflexivity.
+      * assumption.
+      * unfold s1. cbn. lia.
+      * intros x Hx. rewrite Ho1 in Hx. split; [apply (i_univ _ _ HC x Hx)|].
+        unfold s1. cbn. unfold upd. destruct (Nat.eqb x t) eqn:Ex; cbn; [assumption|].
+        apply (cf_all_acked U s HC Ht0 x Hx).
+      * unfold s1 at 1. cbn. rewrite (i_j3 _ _ HC). apply cnt_ext. intros; now rewrite Ho1.
+      * reflexivity.
+      * intros x. unfold s1. cbn. unfold upd. destruct (Nat.eqb x t) eqn:Ex; cbn; [reflexivity|].
+        destruct (deferred (wa s x)) eqn:Edx; [|reflexivity]. apply Nat.eqb_neq in Ex.
+        elim Ex. apply (i_j4u _ _ HC x t Edx Ed).
+    + inversion H; subst s' evs. apply core_enter_quiescent, HC.
+  - destruct (negb (acked (wa s t) =? ctr (wd s))) eqn:E1.
+    + destruct (negb (acked (wa s t) + 1 =? ctr (wd s))) eqn:E2; [discriminate|].
+      assert (Hneed : need s t = true) by (apply need_true; lia).
+      pose proof (cf_toack_pos U s t HC Ht Hneed) as Htp.
+      pose proof (cf_not_deferred_if_toack U s HC ltac:(lia)) as Hnd.
+      destruct (toack (wd s) =? 1) eqn:E3.
+      * destruct (ctr (wd s) <? desired (wd s)) eqn:E4.
+        -- (* last acker, somebody wants the next period: bump *)
+           rewrite guarded_free in H by (cbn; apply HC). cbn in H. inversion H; subst s' evs; clear H.
+           match goal with |- Core _ ?x => set (s1 := x) end.
+           assert (Ho1 : forall x, onl s1 x = onl s x).
+           { intros x. unfold onl, s1. cbn. unfold upd. destruct (Nat.eqb x t) eqn:Ex; [|reflexivity].
+             apply Nat.eqb_eq in Ex. subst x. fold (onl s t). rewrite Hon. unfold online_b. cbn.
+             destruct (acked (wa s t) + 1 =? 0) eqn:F; [lia|reflexivity]. }
+           apply (core_bump U s1 (ctr (wd s))).
+           ++ reflexivity.
+           ++ assumption.
+           ++ reflexivity.
+           ++ intros x Hx. rewrite Ho1 in Hx. split; [apply (i_univ _ _ HC x Hx)|].
+              unfold s1. cbn. unfold upd. destruct (Nat.eqb x t) eqn:Ex; cbn; [lia|]. apply Nat.eqb_neq in Ex.
+              apply (cf_only_needer U s t HC ND Ht); [lia|assumption|assumption|assumption].
+           ++ unfold s1 at 1. cbn. rewrite (i_j3 _ _ HC). apply cnt_ext. intros; now rewrite Ho1.
+           ++ reflexivity.
+           ++ intros x. unfold s1. cbn. unfold upd. destruct (Nat.eqb x t); cbn; [reflexivity|apply Hnd].
+        -- (* last acker, nobody wants the next period: defer *)
+           inversion H; subst s' evs; clear H.
+           match goal with |- Core _ ?x => set (s1 := x) end.
+           assert (Ha1 : wa s1 t = mkAgent (acked (wa s t) + 1) true (pending (wa s t))) by (unfold s1; cbn; now rewrite upd_same).
+           assert (Ho1 : onl s1 t = true) by (apply onl_true; rewrite Ha1; cbn; lia).
+           assert (Hn1 : need s1 t = false) by (apply need_false; right; rewrite Ha1; unfold s1; cbn; lia).
+           apply (core_upd U s s1 t HC ND Ht); [apply HC|reflexivity|..].
+           ++ intros x Hx. unfold s1. cbn. now rewrite upd_other.
+           ++ rewrite Ha1. cbn. lia.
+           ++ rewrite Hneed, Hn1. unfold s1. cbn. rewrite (dec32_pos _ Htp). lia.
+           ++ rewrite Hon, Ho1. unfold s1. cbn. lia.
+           ++ rewrite Ha1. cbn. intros _. unfold s1. cbn. rewrite (dec32_pos _ Htp). lia.
+           ++ intros x _ Hx. rewrite Hnd in Hx. discriminate.
+           ++ intros _ _. exists t. rewrite Ha1. reflexivity.
+      * (* not the last one *)
+        inversion H; subst s' evs; clear H.
+        match goal with |- Core _ ?x => set (s1 := x) end.
+        assert (Ha1 : wa s1 t = mkAgent (acked (wa s t) + 1) false (pending (wa s t))) by (unfold s1; cbn; now rewrite upd_same).
+        assert (Ho1 : onl s1 t = true) by (apply onl_true; rewrite Ha1; cbn; lia).
+        assert (Hn1 : need s1 t = false) by (apply need_false; right; rewrite Ha1; unfold s1; cbn; lia).
+        apply (core_upd U s s1 t HC ND Ht); [apply HC|reflexivity|..].
+        -- intros x Hx. unfold s1. cbn. now rewrite upd_other.
+        -- rewrite Ha1. cbn. lia.
+        -- rewrite Hneed, Hn1. unfold s1. cbn. rewrite (dec32_pos _ Htp). lia.
+        -- rewrite Hon, Ho1. unfold s1. cbn. lia.
+        -- rewrite Ha1. cbn. discriminate.
+        -- intros x _ Hx. rewrite Hnd in Hx. discriminate.
+        -- unfold s1 at 1. cbn. rewrite (dec32_pos _ Htp). intros. lia.
+    + inversion H; subst s' evs. apply core_enter_quiescent, HC.
+Qed.
+
+(* ---------------------------------------------------------------------------------------- *)
+(* run(): the fired prefix                                                                    *)
+(* ---------------------------------------------------------------------------------------- *)
+
+Definition zeroed (tg : nid -> N) (pre : list nid) : nid -> N :=
+  fun n => if existsb (Nat.eqb n) pre then 0 else tg n.
+
+Lemma existsb_eqb_In n l : existsb (Nat.eqb n) l = true <-> In n l.
+Proof.
+  rewrite existsb_exists. split.
+  - intros [x [Hx E]]. apply Nat.eqb_eq in E. now subst.
+  - intros H. exists n. split; [assumption|apply Nat.eqb_refl].
+Qed.
+
+Lemma zeroed_in tg pre n : In n pre -> zeroed tg pre n = 0.
+Proof. intros H. unfold zeroed. apply existsb_eqb_In in H. now rewrite H. Qed.
+Lemma zeroed_out tg pre n : ~ In n pre -> zeroed tg pre n = tg n.
+Proof.
+  intros H. unfold zeroed. destruct (existsb (Nat.eqb n) pre) eqn:E; [|reflexivity].
+  apply existsb_eqb_In in E. contradiction.
+Qed.
+
+Fixpoint fired_evs (t : tid) (pre : list nid) : list wev :=
+  match pre with
+  | [] => []
+  | n :: r => WNode n :: fire_evs true n t ++ fired_evs t r
+  end.
+
+Lemma fire_spec c t : forall pend tg tg' p' evs,
+  NoDup pend -> fire true c t tg pend = (tg', p', evs) ->
+  exists pre, pend = pre ++ p' /\ (forall n, tg' n = zeroed tg pre n) /\
+    (forall n, In n pre -> tg n <= c) /\
+    (match p' with [] => evs = fired_evs t pre | m :: _ => c < tg m /\ evs = fired_evs t pre ++ [WNode m] end).
+Proof.
+  induction pend as [|n r IH]; intros tg tg' p' evs ND H; cbn [fire] in H.
+  - inversion H; subst. exists []. repeat split; try reflexivity. intros n []. 
+  - inversion ND as [|? ? Hn ND']; subst.
+    destruct (c <? tg n) eqn:E.
+    + inversion H; subst. exists []. cbn. repeat split; try reflexivity; [intros m []|lia].
+    + destruct (fire true c t (upd tg n 0) r) as [[tg1 p1] e1] eqn:F. inversion H; subst; clear H.
+      destruct (IH _ _ _ _ ND' F) as (pre & Hp & Htg & Hle & Hev).
+      exists (n :: pre). split; [cbn; now rewrite Hp|]. split; [|split].
+      * intros m. rewrite Htg. unfold zeroed. cbn [existsb]. destruct (Nat.eqb m n) eqn:Em; cbn.
+        -- apply Nat.eqb_eq in Em. subst m. destruct (existsb (Nat.eqb n) pre); [reflexivity|apply upd_same].
+        -- destruct (existsb (Nat.eqb m) pre); [reflexivity|]. apply upd_other. now apply Nat.eqb_neq.
+      * intros m [->|Hm]; [lia|]. specialize (Hle m Hm).
+        rewrite upd_other in Hle; [assumption|]. intros ->. apply Hn. rewrite Hp. apply in_or_app. now left.
+      * destruct p' as [|m p'].
+        -- cbn [fired_evs]. now rewrite Hev.
+        -- destruct Hev as [Hlt Hev]. split.
+           ++ rewrite upd_other in Hlt; [assumption|]. intros ->. apply Hn. rewrite Hp. apply in_or_app. right. now left.
+           ++ cbn [fired_evs]. rewrite Hev. cbn. reflexivity.
+Qed.
+
+(* ---------------------------------------------------------------------------------------- *)
+(* K (waiting sets) and P (pending lists)                                                     *)
+(* ---------------------------------------------------------------------------------------- *)
+
+Lemma k_frame s s' :
+  Kinv s ->
+  (forall n x, wwait s' n x = true -> wtarget s' n <> 0 ->
+     wwait s n x = true /\ wtarget s n = wtarget s' n /\ acked (wa s' x) = acked (wa s x)) ->
+  Kinv s'.
+Proof.
+  intros [K] H. constructor. intros n x Hw Htg. destruct (H n x Hw Htg) as (Hw0 & Ht0 & Ha).
+  rewrite <- Ht0 in Htg |- *. destruct (K n x Hw0 Htg) as [Ho Hl].
+  split; [|now rewrite Ha]. apply onl_true. rewrite Ha. now apply onl_true.
+Qed.
+
+Lemma p_frame s s' :
+  Pinv s ->
+  (forall t, pending (wa s' t) = pending (wa s t)) -> wtarget s' = wtarget s -> wowner s' = wowner s ->
+  desired (wd s) <= desired (wd s') -> ctr (wd s) <= ctr (wd s') ->
+  Pinv s'.
+Proof.
+  intros [P1 P2 P3 P4 P5] Hp Ht Ho Hd Hc. constructor.
+  - intros t n. rewrite Hp, Ht, Ho. apply P1.
+  - intros n. rewrite Ht, Ho. intros H. destruct (P2 n H) as [t Ht']. exists t. now rewrite Hp.
+  - intros t. rewrite Hp. apply P3.
+  - intros t. rewrite Hp, Ht. apply P4.
+  - intros n. rewrite Ht. destruct (P5 n). split; lia.
+Qed.
+
+Lemma sorted_tg_ext tg tg' l : (forall n, In n l -> tg' n = tg n) -> sorted_tg tg l -> sorted_tg tg' l.
+Proof.
+  induction l as [|a l IH]; intros H S; [exact I|]. destruct S as [S1 S2]. split.
+  - intros m Hm. rewrite (H a (or_introl eq_refl)), (H m (or_intror Hm)). now apply S1.
+  - apply IH; [|assumption]. intros n Hn. apply H. now right.
+Qed.
+
+Lemma sorted_tg_snoc tg l n : sorted_tg tg l -> (forall m, In m l -> tg m <= tg n) -> sorted_tg tg (l ++ [n]).
+Proof.
+  induction l as [|a l IH]; intros S H; cbn.
+  - split; [intros m []|exact I].
+  - destruct S as [S1 S2]. split.
+    + intros m Hm. apply in_app_or in Hm. destruct Hm as [Hm|[<-|[]]]; [now apply S1|apply H; now left].
+    + apply IH; [assumption|]. intros m Hm. apply H. now right.
+Qed.
+
+Lemma sorted_tg_suffix tg pre l : sorted_tg tg (pre ++ l) -> sorted_tg tg l.
+Proof. induction pre as [|a pre IH]; cbn; [auto|]. intros [_ S]. now apply IH. Qed.
+
+Lemma NoDup_snoc (l : list nat) n : NoDup l -> ~ In n l -> NoDup (l ++ [n]).
+Proof.
+  induction l as [|a l IH]; intros ND Hn; cbn; [constructor; [intros []|constructor]|].
+  inversion ND as [|? ? Ha ND']; subst. constructor.
+  - intros Hin. apply in_app_or in Hin. destruct Hin as [Hin|[<-|[]]]; [contradiction|]. apply Hn. now left.
+  - apply IH; [assumption|]. intros Hin. apply Hn. now right.
+Qed.
+
+Lemma p_await s t n :
+  Pinv s -> wtarget s n = 0 ->
+  Pinv (mkW (fst (raise_desired (wd s)))
+            (upd (wa s) t (mkAgent (acked (wa s t)) (deferred (wa s t)) (pending (wa s t) ++ [n])))
+            (upd (wtarget s) n (snd (raise_desired (wd s)))) (wheld s)
+            (upd (wwait s) n (fun x => online_b (wa s x))) (wqbw s) (upd (wowner s) n (Some t))).
+Proof.
+  intros [P1 P2 P3 P4 P5] H0.
+  assert (Hnot : forall t', ~ In n (pending (wa s t'))).
+  { intros t' Hin. destruct (P1 t' n Hin). contradiction. }
+  assert (Hpend : forall t' m, In m (pending (wa s t')) -> m <> n).
+  { intros t' m Hm ->. apply (Hnot t' Hm). }
+  constructor; cbn.
+  - intros t' m Hin. unfold upd in Hin. destruct (Nat.eqb t' t) eqn:Et; cbn in Hin.
+    + apply Nat.eqb_eq in Et. subst t'. apply in_app_or in Hin. destruct Hin as [Hin|[<-|[]]].
+      * rewrite !upd_other by (apply (Hpend t m Hin)). apply (P1 t m Hin).
+      * rewrite !upd_same. split; [lia|reflexivity].
+    + rewrite !upd_other by (apply (Hpend t' m Hin)). apply (P1 t' m Hin).
+  - intros m. unfold upd at 1 2. destruct (Nat.eqb m n) eqn:Em.
+    + apply Nat.eqb_eq in Em. subst m. intros _. exists t. split; [reflexivity|]. rewrite upd_same. cbn.
+      apply in_or_app. right. now left.
+    + intros Hm. destruct (P2 m Hm) as [t' [Ho Hin]]. exists t'. split; [assumption|].
+      unfold upd. destruct (Nat.eqb t' t) eqn:Et; cbn; [|assumption].
+      apply Nat.eqb_eq in Et. subst t'. apply in_or_app. now left.
+  - intros t'. unfold upd. destruct (Nat.eqb t' t) eqn:Et; cbn; [|apply P3].
+    apply NoDup_snoc; [apply P3|apply Hnot].
+  - intros t'. unfold upd at 2. destruct (Nat.eqb t' t) eqn:Et; cbn.
+    + apply sorted_tg_snoc.
+      * apply (sorted_tg_ext (wtarget s)); [|apply P4]. intros m Hm. apply upd_other, (Hpend t m Hm).
+      * intros m Hm. rewrite upd_same, (upd_other _ _ _ _ (Hpend t m Hm)). destruct (P5 m). lia.
+    + apply (sorted_tg_ext (wtarget s)); [|apply P4]. intros m Hm. apply upd_other, (Hpend t' m Hm).
+  - intros m. unfold upd. destruct (Nat.eqb m n); [lia|]. destruct (P5 m). lia.
+Qed.
+
+Lemma NoDup_app_disj (pre l : list nat) n : NoDup (pre ++ l) -> In n pre -> In n l -> False.
+Proof.
+  induction pre as [|a pre IH]; cbn; intros ND Hp Hl; [destruct Hp|].
+  inversion ND as [|? ? Ha ND']; subst. destruct Hp as [->|Hp].
+  - apply Ha. apply in_or_app. now right.
+  - now apply IH.
+Qed.
+
+Lemma NoDup_suffix (pre l : list nat) : NoDup (pre ++ l) -> NoDup l.
+Proof. induction pre as [|a pre IH]; cbn; [auto|]. intros ND. inversion ND; subst. auto. Qed.
+
+Lemma p_run s t pre p' :
+  Pinv s -> pending (wa s t) = pre ++ p' ->
+  Pinv (mkW (wd s) (upd (wa s) t (mkAgent (acked (wa s t)) (deferred (wa s t)) p'))
+            (zeroed (wtarget s) pre) (wheld s) (wwait s) (wqbw s) (wowner s)).
+Proof.
+  intros [P1 P2 P3 P4 P5] Hp.
+  assert (NDt : NoDup (pre ++ p')) by (rewrite <- Hp; apply P3).
+  assert (Hpre : forall n, In n pre -> In n (pending (wa s t))) by (intros n Hn; rewrite Hp; apply in_or_app; now left).
+  assert (Hother : forall t' n, t' <> t -> In n (pending (wa s t')) -> ~ In n pre).
+  { intros t' n Ht' Hin Hn. destruct (P1 t' n Hin) as [_ O1]. destruct (P1 t n (Hpre n Hn)) as [_ O2]. congruence. }
+  constructor; cbn.
+  - intros t' n Hin. unfold upd in Hin. destruct (Nat.eqb t' t) eqn:Et; cbn in Hin.
+    + apply Nat.eqb_eq in Et. subst t'. rewrite zeroed_out by (intros Hn; apply (NoDup_app_disj pre p' n NDt Hn Hin)).
+      apply P1. rewrite Hp. apply in_or_app. now right.
+    + apply Nat.eqb_neq in Et. rewrite zeroed_out by (apply (Hother t' n Et Hin)). now apply P1.
+  - intros n Hn. destruct (existsb (Nat.eqb n) pre) eqn:E.
+    + unfold zeroed in Hn. rewrite E in Hn. congruence.
+    + unfold zeroed in Hn. rewrite E in Hn. destruct (P2 n Hn) as [t' [Ho Hin]]. exists t'. split; [assumption|].
+      unfold upd. destruct (Nat.eqb t' t) eqn:Et; cbn; [|assumption].
+      apply Nat.eqb_eq in Et. subst t'. rewrite Hp in Hin. apply in_app_or in Hin. destruct Hin as [Hin|Hin]; [|assumption].
+      apply existsb_eqb_In in Hin. congruence.
+  - intros t'. unfold upd. destruct (Nat.eqb t' t); cbn; [|apply P3]. now apply NoDup_suffix in NDt.
+  - intros t'. unfold upd. destruct (Nat.eqb t' t) eqn:Et; cbn.
+    + apply (sorted_tg_ext (wtarget s)).
+      * intros n Hn. apply zeroed_out. intros Hn'. apply (NoDup_app_disj pre p' n NDt Hn' Hn).
+      * apply (sorted_tg_suffix _ pre). rewrite <- Hp. apply P4.
+    + apply Nat.eqb_neq in Et. apply (sorted_tg_ext (wtarget s)); [|apply P4].
+      intros n Hn. apply zeroed_out. apply (Hother t' n Et Hn).
+  - intros n. unfold zeroed. destruct (existsb (Nat.eqb n) pre); [lia|apply P5].
+Qed.
+
+(* ---------------------------------------------------------------------------------------- *)
+(* every call preserves the invariant                                                         *)
+(* ---------------------------------------------------------------------------------------- *)
+
+Lemma wa_set_agent s t a x : wa (set_agent s t a) x = upd (wa s) t a x.
+Proof. reflexivity. Qed.
+
+Lemma qs_frame t s s' evs :
+  wstep t CQsCall s = Ok (s', evs) ->
+  (forall x, x <> t -> wa s' x = wa s x) /\ pending (wa s' t) = pending (wa s t) /\
+  wtarget s' = wtarget s /\ wowner s' = wowner s /\
+  wwait s' = (fun n x => if Nat.eqb x t then false else wwait s n x) /\
+  wqbw s' = (fun b x => if Nat.eqb x t then false else wqbw s b x) /\
+  desired (wd s') = desired (wd s) /\ ctr (wd s) <= ctr (wd s') /\ acked (wa s t) <> 0.
+Proof.
+  intros H. unfold wstep, w_step, w_qs in H.
+  destruct (acked (wa s t) =? 0) eqn:E0; [discriminate|].
+  cbn [enter_quiescent wa wd] in H.
+  repeat match type of H with
+  | context [if ?b then _ else _] => destruct b eqn:?; try discriminate
+  end;
+  unfold guarded in H; cbn [enter_quiescent wheld set_dom] in H;
+  try (destruct (wheld s); cbn in H; try discriminate);
+  inversion H; subst s' evs; cbn; repeat split; try reflexivity; try lia;
+  try (intros x Hx; now rewrite upd_other); try (now rewrite upd_same).
+Qed.
+
+Lemma offline_frame t s s' evs :
+  wstep t COffline s = Ok (s', evs) ->
+  (forall x, x <> t -> wa s' x = wa s x) /\ pending (wa s' t) = pending (wa s t) /\
+  wtarget s' = wtarget s /\ wowner s' = wowner s /\
+  wwait s' = (fun n x => if Nat.eqb x t then false else wwait s n x) /\
+  wqbw s' = (fun b x => if Nat.eqb x t then false else wqbw s b x) /\
+  desired (wd s') = desired (wd s) /\ ctr (wd s) <= ctr (wd s') /\ acked (wa s t) <> 0.
+Proof.
+  intros H. unfold wstep, w_step, w_offline in H.
+  destruct (acked (wa s t) =? 0) eqn:E0; [discriminate|].
+  cbn [enter_quiescent wa wd] in H.
+  destruct (deferred (wa s t)); [discriminate|].
+  unfold guarded in H; cbn [enter_quiescent wheld set_dom wd] in H.
+  destruct (wheld s); cbn in H; [discriminate|].
+  repeat match type of H with
+  | context [if ?b then _ else _] => destruct b eqn:?; cbn in H; try discriminate
+  end.
+  all: inversion H; subst s' evs; cbn; repeat split; try reflexivity; try lia;
+    try (intros x Hx; now rewrite upd_other); try (now rewrite upd_same).
+Qed.
+
+Lemma online_frame t s s' evs :
+  wstep t COnline s = Ok (s', evs) ->
+  (forall x, x <> t -> wa s' x = wa s x) /\ pending (wa s' t) = pending (wa s t) /\
+  wtarget s' = wtarget s /\ wowner s' = wowner s /\ wwait s' = wwait s /\ wqbw s' = wqbw s /\
+  desired (wd s') = desired (wd s) /\ ctr (wd s) <= ctr (wd s') /\ acked (wa s t) = 0.
+Proof.
+  intros H. unfold wstep, w_step, w_online in H.
+  destruct (negb (acked (wa s t) =? 0)) eqn:E0; [discriminate|].
+  unfold guarded in H.
+  repeat match type of H with
+  | context [if ?b then _ else _] => destruct b eqn:?; cbn in H; try discriminate
+  end;
+  inversion H; subst s' evs; cbn; repeat split; try reflexivity; try lia;
+  try (intros x Hx; now rewrite upd_other); try (now rewrite upd_same).
+Qed.
+
+Lemma pinv_tg_ext s tg' :
+  Pinv s -> (forall n, tg' n = wtarget s n) ->
+  Pinv (mkW (wd s) (wa s) tg' (wheld s) (wwait s) (wqbw s) (wowner s)).
+Proof.
+  intros [P1 P2 P3 P4 P5] E. constructor; cbn.
+  - intros t n. rewrite E. apply P1.
+  - intros n. rewrite E. apply P2.
+  - apply P3.
+  - intros t. apply (sorted_tg_ext (wtarget s)); [intros; apply E|apply P4].
+  - intros n. rewrite E. apply P5.
+Qed.
+
+Lemma inv_qs U s t s' evs :
+  NoDup U -> In t U -> Inv U s -> wstep t CQsCall s = Ok (s', evs) -> Inv U s'.
+Proof.
+  intros ND Ht (HC & HK & HP) H.
+  destruct (qs_frame _ _ _ _ H) as (Hoth & Hpend & Htg & Hown & Hw & Hq & Hd & Hc & Hon).
+  split; [apply (core_qs U s t s' evs HC ND Ht H)|]. split.
+  - apply (k_frame s s' HK). intros n x Hwx Htx. rewrite Hw in Hwx.
+    destruct (Nat.eqb x t) eqn:Ex; [discriminate|]. apply Nat.eqb_neq in Ex.
+    rewrite Htg, (Hoth x Ex). auto.
+  - apply (p_frame s s' HP); try assumption; try lia.
+    intros t'. destruct (Nat.eq_dec t' t) as [->|Hn]; [assumption|now rewrite (Hoth t' Hn)].
+Qed.
+
+Lemma qb_loop_inv (P : wstate -> Prop) t target :
+  (forall s s' e, P s -> wstep t CQsCall s = Ok (s', e) -> P s') ->
+  forall fuel s acc s' evs, P s ->
+    qb_loop [MLock] [MUnlock] fuel t target s acc = Ok (s', evs) -> P s' /\ target <= ctr (wd s').
+Proof.
+  intros Hstep. induction fuel as [|f IH]; intros s acc s' evs HP H; cbn [qb_loop] in H; [discriminate|].
+  destruct (ctr (wd s) <? target) eqn:E.
+  - fold (wstep t CQsCall s) in H. change (w_qs [MLock] [MUnlock] t s) with (wstep t CQsCall s) in H.
+    destruct (wstep t CQsCall s) as [[s1 e1]| | | |] eqn:F; cbn [bind] in H; try discriminate.
+    apply (IH _ _ _ _ (Hstep _ _ _ HP F) H).
+  - inversion H; subst. split; [assumption|lia].
+Qed.
+
+Lemma step_inv U s t c s' evs :
+  NoDup U -> few U -> In t U -> Inv U s -> wstep t c s = Ok (s', evs) -> Inv U s'.
+Proof.
+  intros ND HB Ht HI H. destruct c.
+  - (* online *)
+    destruct HI as (HC & HK & HP).
+    destruct (online_frame _ _ _ _ H) as (Hoth & Hpend & Htg & Hown & Hw & Hq & Hd & Hc & Hoff).
+    split; [apply (core_online U s t s' evs HC ND Ht HB H)|]. split.
+    + constructor. intros n x Hwx Htx. rewrite Hw in Hwx. rewrite Htg in Htx |- *.
+      destruct (i_k _ HK n x Hwx Htx) as [Ho Hl].
+      destruct (Nat.eq_dec x t) as [->|Hn]; [apply onl_true in Ho; contradiction|].
+      unfold onl. rewrite (Hoth x Hn). auto.
+    + apply (p_frame s s' HP); try assumption; try lia.
+      intros t'. destruct (Nat.eq_dec t' t) as [->|Hn]; [assumption|now rewrite (Hoth t' Hn)].
+  - (* offline *)
+    destruct HI as (HC & HK & HP).
+    destruct (offline_frame _ _ _ _ H) as (Hoth & Hpend & Htg & Hown & Hw & Hq & Hd & Hc & Hon).
+    split; [apply (core_offline U s t s' evs HC ND Ht H)|]. split.
+    + apply (k_frame s s' HK). intros n x Hwx Htx. rewrite Hw in Hwx.
+      destruct (Nat.eqb x t) eqn:Ex; [discriminate|]. apply Nat.eqb_neq in Ex.
+      rewrite Htg, (Hoth x Ex). auto.
+    + apply (p_frame s s' HP); try assumption; try lia.
+      intros t'. destruct (Nat.eq_dec t' t) as [->|Hn]; [assumption|now rewrite (Hoth t' Hn)].
+  - apply (inv_qs U s t s' evs ND Ht HI H).
+  - (* await_barrier *)
+    destruct HI as (HC & HK & HP).
+    unfold wstep, w_step, w_await in H. cbn [raise_desired] in H.
+    destruct (negb (wtarget s n =? 0)) eqn:E0; [discriminate|]. inversion H; subst s' evs; clear H.
+    split; [|split].
+    + apply (core_ext U s); try reflexivity; [assumption|apply HC|].
+      intros x. cbn. unfold upd. destruct (Nat.eqb x t) eqn:Ex; [|split; reflexivity].
+      apply Nat.eqb_eq in Ex. subst x. split; reflexivity.
+    + constructor. cbn. intros m x.
+      assert (Hacc : acked (upd (wa s) t (mkAgent (acked (wa s t)) (deferred (wa s t)) (pending (wa s t) ++ [n])) x) = acked (wa s x)).
+      { unfold upd. destruct (Nat.eqb x t) eqn:Ex; [|reflexivity]. apply Nat.eqb_eq in Ex. now subst x. }
+      destruct (Nat.eq_dec m n) as [->|Hmn].
+      * rewrite !upd_same. intros Ho _. fold (onl s x) in Ho. split.
+        -- apply onl_true. cbn. rewrite Hacc. now apply onl_true.
+        -- rewrite Hacc. destruct (i_j1 _ _ HC x Ho); lia.
+      * rewrite !(upd_other _ n _ m Hmn). intros Hwx Htx. destruct (i_k _ HK m x Hwx Htx) as [Ho Hl].
+        split; [|now rewrite Hacc]. apply onl_true. cbn. rewrite Hacc. now apply onl_true.
+    + apply (p_await s t n HP). lia.
+  - (* run *)
+    destruct HI as (HC & HK & HP).
+    unfold wstep, w_step, w_run in H.
+    destruct (fire true (ctr (wd s)) t (wtarget s) (pending (wa s t))) as [[tg' p'] e] eqn:F.
+    inversion H; subst s' evs; clear H.
+    destruct (fire_spec _ _ _ _ _ _ _ (i_p3 _ HP t) F) as (pre & Hp & Htg & Hle & Hev).
+    split; [|split].
+    + apply (core_ext U s); try reflexivity; [assumption|apply HC|].
+      intros x. cbn. unfold upd. destruct (Nat.eqb x t) eqn:Ex; [|split; reflexivity].
+      apply Nat.eqb_eq in Ex. subst x. split; reflexivity.
+    + apply (k_frame s _ HK). cbn. intros n x Hwx Htx. split; [assumption|]. split.
+      * rewrite Htg in Htx |- *. unfold zeroed in *. destruct (existsb (Nat.eqb n) pre); [congruence|reflexivity].
+      * unfold upd. destruct (Nat.eqb x t) eqn:Ex; [|reflexivity]. apply Nat.eqb_eq in Ex. now subst x.
+    + pose proof (p_run s t pre p' HP Hp) as Q.
+      apply (pinv_tg_ext _ tg') in Q; [exact Q|]. intros n. cbn. apply Htg.
+  - (* quiescent_barrier *)
+    unfold wstep, w_step, w_qbarrier in H. cbn [raise_desired] in H.
+    match type of H with qb_loop _ _ _ _ _ ?x _ = _ => set (s1 := x) in * end.
+    assert (HI1 : Inv U s1).
+    { destruct HI as (HC & HK & HP). split; [|split].
+      - apply (core_ext U s); try reflexivity; [assumption|apply HC|intros; split; reflexivity].
+      - apply (k_frame s s1 HK). cbn. auto.
+      - apply (p_frame s s1 HP); try reflexivity; unfold s1; cbn; lia. }
+    apply (qb_loop_inv (Inv U) t _ (fun a b e Ha Hs => inv_qs U a t b e ND Ht Ha Hs) _ _ _ _ _ HI1 H).
+Qed.
+
+(* ---------------------------------------------------------------------------------------- *)
+(* reachable states                                                                           *)
+(* ---------------------------------------------------------------------------------------- *)
+
+Lemma inv_w0 U : Inv U w0.
+Proof.
+  assert (Z : forall p : nat -> bool, (forall x, p x = false) -> cnt p U = 0).
+  { intros p Hp. induction U as [|a U' IH]; cbn; [reflexivity|]. rewrite Hp, IH. reflexivity. }
+  split; [|split].
+  - constructor.
+    + reflexivity.
+    + cbn. lia.
+    + intros x H. discriminate.
+    + intros x H. discriminate.
+    + cbn. symmetry. apply Z. reflexivity.
+    + cbn. symmetry. apply Z. reflexivity.
+    + intros x H. discriminate.
+    + intros x y H. discriminate.
+    + cbn. intros _ H. lia.
+  - constructor. cbn. intros n x H. discriminate.
+  - constructor; cbn.
+    + intros t n [].
+    + intros n H. congruence.
+    + intros t. constructor.
+    + intros t. exact I.
+    + intros n. lia.
+Qed.
+
+(* every call is made by an agent of U; a run stops at the first call that does not return *)
+Inductive wreach (U : list tid) : wstate -> list wev -> Prop :=
+| wr_init : wreach U w0 []
+| wr_step s tr t c s' evs :
+    wreach U s tr -> In t U -> wstep t c s = Ok (s', evs) -> wreach U s' (tr ++ evs).
+
+Lemma wreach_inv U s tr : NoDup U -> few U -> wreach U s tr -> Inv U s.
+Proof.
+  intros ND HB H. induction H as [|s tr t c s' evs _ IH Ht Hs]; [apply inv_w0|].
+  apply (step_inv U s t c s' evs ND HB Ht IH Hs).
+Qed.
+
+(* ---------------------------------------------------------------------------------------- *)
+(* which events a call emits                                                                  *)
+(* ---------------------------------------------------------------------------------------- *)
+
+Definition neutral (e : wev) : Prop := match e with WMx _ | WQbRet _ => True | _ => False end.
+
+Lemma qs_evs t s s' evs : wstep t CQsCall s = Ok (s', evs) -> Forall neutral evs.
+Proof.
+  intros H. unfold wstep, w_step, w_qs in H.
+  destruct (acked (wa s t) =? 0); [discriminate|]. cbn [enter_quiescent wa wd] in H.
+  unfold guarded in H; cbn [enter_quiescent wheld set_dom wd] in H.
+  destruct (wheld s); cbn in H;
+  repeat match type of H with
+  | context [if ?b then _ else _] => destruct b eqn:?; cbn in H; try discriminate
+  end.
+  all: inversion H; subst; repeat constructor.
+Qed.
+
+Lemma qb_loop_evs t target : forall fuel s acc s' evs,
+  Forall neutral acc -> qb_loop [MLock] [MUnlock] fuel t target s acc = Ok (s', evs) -> Forall neutral evs.
+Proof.
+  induction fuel as [|f IH]; intros s acc s' evs Ha H; cbn [qb_loop] in H; [discriminate|].
+  destruct (ctr (wd s) <? target).
+  - change (w_qs [MLock] [MUnlock] t s) with (wstep t CQsCall s) in H.
+    destruct (wstep t CQsCall s) as [[s1 e1]| | | |] eqn:F; cbn [bind] in H; try discriminate.
+    apply (IH _ _ _ _ (proj2 (Forall_app _ _ _) (conj Ha (qs_evs _ _ _ _ F))) H).
+  - inversion H; subst. apply Forall_app. split; [assumption|repeat constructor].
+Qed.
+
+Lemma step_evs t c s s' evs :
+  wstep t c s = Ok (s', evs) ->
+  match c with
+  | CRun => True
+  | CAwait n => evs = [WReg n t; WNode n; WNode n; WNode n]
+  | _ => Forall neutral evs
+  end.
+Proof.
+  intros H. destruct c.
+  - unfold wstep, w_step, w_online in H. destruct (negb (acked (wa s t) =? 0)); [discriminate|].
+    unfold guarded in H. destruct (wheld s); cbn in H;
+    repeat match type of H with
+    | context [if ?b then _ else _] => destruct b eqn:?; cbn in H; try discriminate
+    end.
+    all: inversion H; subst; repeat constructor.
+  - unfold wstep, w_step, w_offline in H. destruct (acked (wa s t) =? 0); [discriminate|].
+    cbn [enter_quiescent wa wd] in H. destruct (deferred (wa s t)); [discriminate|].
+    unfold guarded in H; cbn [enter_quiescent wheld set_dom wd] in H.
+    destruct (wheld s); cbn in H;
+    repeat match type of H with
+    | context [if ?b then _ else _] => destruct b eqn:?; cbn in H; try discriminate
+    end.
+    all: inversion H; subst; repeat constructor.
+  - apply (qs_evs _ _ _ _ H).
+  - unfold wstep, w_step, w_await in H. cbn [raise_desired] in H.
+    destruct (negb (wtarget s n =? 0)); [discriminate|]. now inversion H.
+  - exact I.
+  - unfold wstep, w_step, w_qbarrier in H. cbn [raise_desired] in H.
+    apply (qb_loop_evs _ _ _ _ _ _ _ (Forall_nil _) H).
+Qed.
+
+(* ---------------------------------------------------------------------------------------- *)
+(* grace period (whole-operation granularity)                                                 *)
+(* ---------------------------------------------------------------------------------------- *)
+
+Lemma in_fired_evs t pre n t' : In (WCb n t') (fired_evs t pre) -> In n pre /\ t' = t.
+Proof.
+  induction pre as [|m pre IH]; cbn; [intros []|].
+  intros [H|[H|[H|[H|[H|H]]]]]; try discriminate.
+  - inversion H; subst. split; [now left|reflexivity].
+  - destruct (IH H). split; [now right|assumption].
+Qed.
+
+Theorem wo_callback_in_run U s t c s' evs n t' :
+  Inv U s -> wstep t c s = Ok (s', evs) -> In (WCb n t') evs ->
+  c = CRun /\ t' = t /\ In n (pending (wa s t)) /\ wowner s n = Some t /\
+  wtarget s n <> 0 /\ wtarget s n <= ctr (wd s).
+Proof.
+  intros (HC & HK & HP) H Hin. pose proof (step_evs _ _ _ _ _ H) as E. destruct c.
+  1-3,6: rewrite Forall_forall in E; destruct (E _ Hin).
+  - subst evs. destruct Hin as [F|[F|[F|[F|[]]]]]; discriminate.
+  - clear E. unfold wstep, w_step, w_run in H.
+    destruct (fire true (ctr (wd s)) t (wtarget s) (pending (wa s t))) as [[tg' p'] e] eqn:F.
+    inversion H; subst s' evs; clear H.
+    destruct (fire_spec _ _ _ _ _ _ _ (i_p3 _ HP t) F) as (pre & Hp & Htg & Hle & Hev).
+    assert (Hin' : In (WCb n t') (fired_evs t pre)).
+    { destruct p' as [|m p']; [now subst e|]. destruct Hev as [_ ->]. apply in_app_or in Hin.
+      destruct Hin as [Hin|[Hin|[]]]; [assumption|discriminate]. }
+    destruct (in_fired_evs _ _ _ _ Hin') as [Hpre ->].
+    assert (Hpend : In n (pending (wa s t))) by (rewrite Hp; apply in_or_app; now left).
+    destruct (i_p1 _ HP t n Hpend). repeat split; auto.
+Qed.
+
+Theorem wo_grace_period U s t c s' evs n t' :
+  Inv U s -> wstep t c s = Ok (s', evs) -> In (WCb n t') evs ->
+  forall x, wwait s n x = false.
+Proof.
+  intros HI H Hin x. destruct (wo_callback_in_run U s t c s' evs n t' HI H Hin) as (_ & _ & _ & _ & Hnz & Hle).
+  destruct HI as (HC & HK & HP).
+  destruct (wwait s n x) eqn:E; [|reflexivity].
+  destruct (i_k _ HK n x E Hnz) as [Ho Hl]. destruct (i_j1 _ _ HC x Ho); lia.
+Qed.
+
+(* quiescent_barrier returns only when its own waiting set is empty *)
+Theorem wo_qbarrier_grace U s t s' evs :
+  NoDup U -> In t U -> Inv U s -> wstep t CQBarrier s = Ok (s', evs) -> forall x, wqbw s' t x = false.
+Proof.
+  intros ND Ht HI H. unfold wstep, w_step, w_qbarrier in H. cbn [raise_desired] in H.
+  match type of H with qb_loop _ _ _ _ ?tg ?x _ = _ => set (s1 := x) in *; set (target := tg) in * end.
+  set (Q := fun s0 : wstate => Inv U s0 /\
+      forall x, wqbw s0 t x = true -> onl s0 x = true /\ acked (wa s0 x) + 2 <= target).
+  assert (Q1 : Q s1).
+  { split.
+    - destruct HI as (HC & HK & HP). split; [|split].
+      + apply (core_ext U s); try reflexivity; [assumption|apply HC|intros; split; reflexivity].
+      + apply (k_frame s s1 HK). cbn. auto.
+      + apply (p_frame s s1 HP); try reflexivity; unfold s1; cbn; lia.
+    - intros x. unfold s1. cbn. rewrite upd_same. intros Ho. fold (onl s x) in Ho. split; [assumption|].
+      destruct HI as (HC & _). unfold target. destruct (i_j1 _ _ HC x Ho); lia. }
+  assert (Qstep : forall a b e, Q a -> wstep t CQsCall a = Ok (b, e) -> Q b).
+  { intros a b e [Ia Wa] Hs. split; [apply (inv_qs U a t b e ND Ht Ia Hs)|].
+    destruct (qs_frame _ _ _ _ Hs) as (Hoth & _ & _ & _ & _ & Hq & _ & _ & _).
+    intros x. rewrite Hq. destruct (Nat.eqb x t) eqn:Ex; [discriminate|]. apply Nat.eqb_neq in Ex.
+    intros Hw. destruct (Wa x Hw) as [Ho Hl]. unfold onl. rewrite (Hoth x Ex). auto. }
+  destruct (qb_loop_inv Q t target Qstep _ _ _ _ _ Q1 H) as [[(HC' & _) W'] Hge].
+  intros x. destruct (wqbw s' t x) eqn:E; [|reflexivity].
+  destruct (W' x E) as [Ho Hl]. destruct (i_j1 _ _ HC' x Ho); lia.
+Qed.
+
+(* ---------------------------------------------------------------------------------------- *)
+(* the trace: callbacks once, by the owner; node untouched after its callback started         *)
+(* ---------------------------------------------------------------------------------------- *)
+
+Lemma node_run_app n : forall a st b,
+  node_run n st (a ++ b) = match node_run n st a with Some st' => node_run n st' b | None => None end.
+Proof.
+  induction a as [|e a IH]; intros st b; [reflexivity|]. cbn [app node_run].
+  destruct e; try apply IH.
+  - destruct (Nat.eqb n0 n); [destruct st; [reflexivity|apply IH]|apply IH].
+  - destruct (Nat.eqb n0 n); [destruct st; [apply IH|reflexivity]|apply IH].
+  - destruct (Nat.eqb n0 n); [|apply IH]. destruct st as [t'|]; [|reflexivity].
+    destruct (Nat.eqb t t'); [apply IH|reflexivity].
+Qed.
+
+Lemma node_run_neutral n st evs : Forall neutral evs -> node_run n st evs = Some st.
+Proof.
+  induction 1 as [|e evs He _ IH]; [reflexivity|]. destruct e; cbn in He; try contradiction; exact IH.
+Qed.
+
+(* what the state knows about node n *)
+Definition reg_of (s : wstate) (n : nid) : option tid := if wtarget s n =? 0 then None else wowner s n.
+
+Lemma node_run_fired n t : forall pre st,
+  NoDup pre ->
+  node_run n st (fired_evs t pre) =
+  if existsb (Nat.eqb n) pre then (match st with Some t' => if Nat.eqb t t' then Some None else None | None => None end)
+  else Some st.
+Proof.
+  induction pre as [|m pre IH]; intros st ND; [reflexivity|].
+  inversion ND as [|? ? Hm ND']; subst.
+  cbn [fired_evs fire_evs app node_run existsb].
+  destruct (Nat.eqb m n) eqn:E.
+  - apply Nat.eqb_eq in E. subst m. rewrite Nat.eqb_refl. cbn [orb].
+    destruct st as [t'|]; [|reflexivity]. destruct (Nat.eqb t t'); [|reflexivity].
+    rewrite (IH None ND'). destruct (existsb (Nat.eqb n) pre) eqn:F; [|reflexivity].
+    apply existsb_eqb_In in F. contradiction.
+  - rewrite Nat.eqb_sym, E. cbn [orb]. apply (IH st ND').
+Qed.
+
+Definition Tinv (s : wstate) (tr : list wev) : Prop := forall n, node_run n None tr = Some (reg_of s n).
+
+Lemma reg_of_frame s s' : wtarget s' = wtarget s -> wowner s' = wowner s -> forall n, reg_of s' n = reg_of s n.
+Proof. intros H1 H2 n. unfold reg_of. now rewrite H1, H2. Qed.
+
+Lemma step_tinv U s tr t c s' evs :
+  Inv U s -> Tinv s tr -> wstep t c s = Ok (s', evs) -> Tinv s' (tr ++ evs).
+Proof.
+  intros (HC & HK & HP) HT H n. rewrite node_run_app, (HT n).
+  pose proof (step_evs _ _ _ _ _ H) as E. destruct c.
+  - rewrite (node_run_neutral _ _ _ E). f_equal. symmetry.
+    destruct (online_frame _ _ _ _ H) as (_ & _ & Htg & Hown & _). now apply reg_of_frame.
+  - rewrite (node_run_neutral _ _ _ E). f_equal. symmetry.
+    destruct (offline_frame _ _ _ _ H) as (_ & _ & Htg & Hown & _). now apply reg_of_frame.
+  - rewrite (node_run_neutral _ _ _ E). f_equal. symmetry.
+    destruct (qs_frame _ _ _ _ H) as (_ & _ & Htg & Hown & _). now apply reg_of_frame.
+  - subst evs. unfold wstep, w_step, w_await in H. cbn [raise_desired] in H.
+    destruct (negb (wtarget s n0 =? 0)) eqn:E0; [discriminate|]. inversion H; subst s'; clear H.
+    unfold reg_of. cbn [wtarget wowner node_run].
+    destruct (Nat.eqb n0 n) eqn:En.
+    + apply Nat.eqb_eq in En. subst n0. rewrite !upd_same.
+      destruct (wtarget s n =? 0) eqn:Z; [|discriminate]. cbn.
+      destruct (ctr (wd s) + 2 =? 0) eqn:Z2; [lia|reflexivity].
+    + apply Nat.eqb_neq in En. rewrite !upd_other by (intros ->; now apply En). reflexivity.
+  - clear E. unfold wstep, w_step, w_run in H.
+    destruct (fire true (ctr (wd s)) t (wtarget s) (pending (wa s t))) as [[tg' p'] e] eqn:F.
+    inversion H; subst s' evs; clear H.
+    destruct (fire_spec _ _ _ _ _ _ _ (i_p3 _ HP t) F) as (pre & Hp & Htg & Hle & Hev).
+    assert (NDt : NoDup (pre ++ p')) by (rewrite <- Hp; apply (i_p3 _ HP)).
+    assert (NDpre : NoDup pre).
+    { clear - NDt. induction pre as [|a pre IH]; [constructor|]. cbn in NDt. inversion NDt; subst.
+      constructor; [|auto]. intros Hin. apply H1. apply in_or_app. now left. }
+    assert (Hfired : node_run n (reg_of s n) (fired_evs t pre) = Some (if tg' n =? 0 then None else wowner s n)).
+    { rewrite (node_run_fired n t pre _ NDpre), Htg. unfold zeroed.
+      destruct (existsb (Nat.eqb n) pre) eqn:Ex; [|reflexivity].
+      apply existsb_eqb_In in Ex.
+      assert (Hpend : In n (pending (wa s t))) by (rewrite Hp; apply in_or_app; now left).
+      destruct (i_p1 _ HP t n Hpend) as [Hnz Hown]. unfold reg_of.
+      destruct (wtarget s n =? 0) eqn:Z; [lia|]. rewrite Hown, Nat.eqb_refl. reflexivity. }
+    unfold reg_of at 2. cbn [wtarget wowner].
+    destruct p' as [|m p'].
+    + subst e. exact Hfired.
+    + destruct Hev as [Hlt ->]. rewrite node_run_app, Hfired. cbn [node_run].
+      destruct (Nat.eqb m n) eqn:Em; [|reflexivity]. apply Nat.eqb_eq in Em. subst m.
+      rewrite Htg, zeroed_out.
+      * assert (Hpend : In n (pending (wa s t))) by (rewrite Hp; apply in_or_app; right; now left).
+        destruct (i_p1 _ HP t n Hpend) as [Hnz Hown]. destruct (wtarget s n =? 0) eqn:Z; [lia|]. now rewrite Hown.
+      * intros Hin. apply (NoDup_app_disj pre (n :: p') n NDt Hin). now left.
+  - rewrite (node_run_neutral _ _ _ E). f_equal. symmetry.
+    unfold wstep, w_step, w_qbarrier in H. cbn [raise_desired] in H.
+    match type of H with qb_loop _ _ _ _ ?tg ?x _ = _ => set (s1 := x) in * end.
+    set (Q := fun s0 : wstate => wtarget s0 = wtarget s /\ wowner s0 = wowner s).
+    assert (Qstep : forall a b e, Q a -> wstep t CQsCall a = Ok (b, e) -> Q b).
+    { intros a b e0 [Q1 Q2] Hs. destruct (qs_frame _ _ _ _ Hs) as (_ & _ & Htg & Hown & _). split; congruence. }
+    destruct (qb_loop_inv Q t _ Qstep _ s1 _ _ _ (conj eq_refl eq_refl) H) as [[Q1 Q2] _].
+    now apply reg_of_frame.
+Qed.
+
+Theorem wo_trace_ok U s tr : NoDup U -> few U -> wreach U s tr -> Tinv s tr.
+Proof.
+  intros ND HB H. induction H as [|s tr t c s' evs Hr IH Ht Hs].
+  - intros n. reflexivity.
+  - apply (step_tinv U s tr t c s' evs (wreach_inv U s tr ND HB Hr) IH Hs).
+Qed.
+
+(* readable consequences of [trace_ok] *)
+Definition clean (n : nid) (l : list wev) : Prop :=
+  forall t, ~ In (WReg n t) l /\ ~ In (WCb n t) l.
+
+Lemma node_run_unreg n : forall b,
+  (forall t, ~ In (WReg n t) b) -> node_run n None b = Some None \/ node_run n None b = None.
+Proof.
+  induction b as [|e b IH]; intros H; [now left|].
+  assert (H' : forall t, ~ In (WReg n t) b) by (intros t Hin; apply (H t); now right).
+  destruct e; cbn [node_run]; try (apply IH; assumption).
+  - destruct (Nat.eqb n0 n) eqn:E; [|apply IH; assumption]. apply Nat.eqb_eq in E. subst n0.
+    exfalso. apply (H t). now left.
+  - destruct (Nat.eqb n0 n); [now right|apply IH; assumption].
+  - destruct (Nat.eqb n0 n); [now right|apply IH; assumption].
+Qed.
+
+Lemma classic_reg n : forall b, (exists t', In (WReg n t') b) \/ (forall t, ~ In (WReg n t) b).
+Proof.
+  induction b as [|e b [[t' H]|H]].
+  - right. intros t [].
+  - left. exists t'. now right.
+  - destruct e as [c|m t0|m|m t0|t0];
+      try (right; intros t [F|F]; [discriminate|apply (H t F)]).
+    destruct (Nat.eq_dec m n) as [->|Hn].
+    + left. exists t0. now left.
+    + right. intros t [F|F]; [inversion F; congruence|apply (H t F)].
+Qed.
+
+Lemma trace_after_callback tr a n t b e c :
+  trace_ok tr -> tr = a ++ WCb n t :: b ++ e :: c ->
+  (e = WNode n \/ exists t2, e = WCb n t2) -> exists t', In (WReg n t') b.
+Proof.
+  intros Hok -> He.
+  destruct (classic_reg n b) as [Hex|Hno]; [assumption|]. exfalso. apply (Hok n).
+  rewrite node_run_app. destruct (node_run n None a) as [st|]; [|reflexivity].
+  cbn [node_run]. rewrite Nat.eqb_refl. destruct st as [t'|]; [|reflexivity].
+  destruct (Nat.eqb t t'); [|reflexivity]. rewrite node_run_app.
+  destruct (node_run_unreg n b Hno) as [-> | ->]; [|reflexivity].
+  destruct He as [->|[t2 ->]]; cbn [node_run]; now rewrite Nat.eqb_refl.
+Qed.
+
+Lemma node_run_registered n t : forall a st,
+  node_run n st a = Some (Some t) ->
+  (st = Some t /\ clean n a) \/ (exists a1 a2, a = a1 ++ WReg n t :: a2 /\ clean n a2).
+Proof.
+  induction a as [|e a IH]; intros st H.
+  - left. inversion H. split; [reflexivity|]. intros t0. split; intros [].
+  - assert (Hext : forall st', node_run n st' a = Some (Some t) ->
+        (forall t0, e <> WReg n t0 /\ e <> WCb n t0) -> st' = st ->
+        (st = Some t /\ clean n (e :: a)) \/ (exists a1 a2, e :: a = a1 ++ WReg n t :: a2 /\ clean n a2)).
+    { intros st' H' Hne <-. destruct (IH st' H') as [[E C]|(a1 & a2 & -> & C)].
+      - left. split; [assumption|]. intros t0. destruct (C t0) as [C1 C2]. destruct (Hne t0) as [N1 N2].
+        split; intros [F|F]; try contradiction; congruence.
+      - right. exists (e :: a1), a2. split; [reflexivity|assumption]. }
+    destruct e as [c|m t0|m|m t0|t0]; cbn [node_run] in H.
+    + apply (Hext st H); [intros; split; discriminate|reflexivity].
+    + destruct (Nat.eqb m n) eqn:E.
+      * apply Nat.eqb_eq in E. subst m. destruct st; [discriminate|].
+        destruct (IH (Some t0) H) as [[E C]|(a1 & a2 & -> & C)].
+        -- inversion E; subst t0. right. exists [], a. split; [reflexivity|assumption].
+        -- right. exists (WReg n t0 :: a1), a2. split; [reflexivity|assumption].
+      * apply Nat.eqb_neq in E. apply (Hext st H); [|reflexivity].
+        intros t1. split; intros F; inversion F; congruence.
+    + destruct (Nat.eqb m n); [destruct st; [|discriminate]|];
+        (apply (Hext _ H); [intros; split; discriminate|reflexivity]).
+    + destruct (Nat.eqb m n) eqn:E.
+      * apply Nat.eqb_eq in E. subst m. destruct st as [t'|]; [|discriminate].
+        destruct (Nat.eqb t0 t'); [|discriminate].
+        destruct (IH None H) as [[E C]|(a1 & a2 & -> & C)]; [discriminate|].
+        right. exists (WCb n t0 :: a1), a2. split; [reflexivity|assumption].
+      * apply Nat.eqb_neq in E. apply (Hext st H); [|reflexivity].
+        intros t1. split; intros F; inversion F; congruence.
+    + apply (Hext st H); [intros; split; discriminate|reflexivity].
+Qed.
+
+(* a callback is preceded by a registration of the same node by the same agent, with no other
+   callback or registration of that node in between *)
+Lemma trace_callback_registered tr a n t c :
+  trace_ok tr -> tr = a ++ WCb n t :: c ->
+  exists a1 a2, a = a1 ++ WReg n t :: a2 /\ clean n a2.
+Proof.
+  intros Hok ->. specialize (Hok n). rewrite node_run_app in Hok.
+  destruct (node_run n None a) as [st|] eqn:E; [|congruence].
+  cbn [node_run] in Hok. rewrite Nat.eqb_refl in Hok.
+  destruct st as [t'|]; [|congruence]. destruct (Nat.eqb t t') eqn:Et; [|congruence].
+  apply Nat.eqb_eq in Et. subst t'.
+  destruct (node_run_registered n t a None E) as [[F _]|H]; [discriminate|exact H].
+Qed.
+
+(* ---------------------------------------------------------------------------------------- *)
+(* every call returns (no deadlock at whole-operation granularity); assertion stops are       *)
+(* exactly the violated preconditions (+ D07)                                                 *)
+(* ---------------------------------------------------------------------------------------- *)
+
+Definition precondition_violated (s : wstate) (t : tid) (c : call) : Prop :=
+  match c with
+  | COnline => onl s t = true
+  | COffline => onl s t = false \/ deferred (wa s t) = true        (* the second disjunct is D07 *)
+  | CQsCall => onl s t = false
+  | CAwait n => wtarget s n <> 0
+  | CRun => False
+  | CQBarrier => onl s t = false
+  end.
+
+Lemma qs_outcome U s t :
+  Core U s -> NoDup U -> In t U -> onl s t = true ->
+  exists s' evs, wstep t CQsCall s = Ok (s', evs) /\ onl s' t = true.
+Proof.
+  intros HC ND Ht Hon. unfold wstep, w_step, w_qs.
+  assert (Ha : acked (wa s t) <> 0) by now apply onl_true.
+  destruct (acked (wa s t) =? 0) eqn:E0; [lia|].
+  cbn [enter_quiescent wa wd].
+  destruct (deferred (wa s t)) eqn:Ed.
+  - destruct (i_j4 _ _ HC t Ed) as (_ & Hac & _).
+    destruct (negb (acked (wa s t) =? ctr (wd s))) eqn:E1; [lia|].
+    destruct (acked (wa s t) <? desired (wd s)).
+    + rewrite guarded_free by (cbn; apply HC). cbn. eexists _, _. split; [reflexivity|].
+      unfold onl. cbn. rewrite upd_same. unfold online_b. cbn. now rewrite E0.
+    + eexists _, _. split; [reflexivity|]. exact Hon.
+  - destruct (negb (acked (wa s t) =? ctr (wd s))) eqn:E1.
+    + destruct (i_j1 _ _ HC t Hon) as [F|F]; [lia|].
+      destruct (negb (acked (wa s t) + 1 =? ctr (wd s))) eqn:E2; [lia|].
+      assert (Ho' : forall b p, online_b (mkAgent (acked (wa s t) + 1) b p) = true).
+      { intros. unfold online_b. cbn. destruct (acked (wa s t) + 1 =? 0) eqn:Z; [lia|reflexivity]. }
+      destruct (toack (wd s) =? 1).
+      * destruct (ctr (wd s) <? desired (wd s)).
+        -- rewrite guarded_free by (cbn; apply HC). cbn. eexists _, _. split; [reflexivity|].
+           unfold onl. cbn. rewrite upd_same. now apply Ho'.
+        -- eexists _, _. split; [reflexivity|]. unfold onl. cbn. rewrite upd_same. now apply Ho'.
+      * eexists _, _. split; [reflexivity|]. unfold onl. cbn. rewrite upd_same. now apply Ho'.
+    + eexists _, _. split; [reflexivity|]. exact Hon.
+Qed.
+
+Lemma qb_loop_outcome U t target : NoDup U -> In t U -> forall fuel s acc,
+  Inv U s -> onl s t = true ->
+  (exists s' evs, qb_loop [MLock] [MUnlock] fuel t target s acc = Ok (s', evs)) \/
+  qb_loop [MLock] [MUnlock] fuel t target s acc = OutOfFuel.
+Proof.
+  intros ND Ht. induction fuel as [|f IH]; intros s acc HI Hon; cbn [qb_loop]; [now right|].
+  destruct (ctr (wd s) <? target); [|left; eauto].
+  change (w_qs [MLock] [MUnlock] t s) with (wstep t CQsCall s).
+  destruct (qs_outcome U s t (proj1 HI) ND Ht Hon) as (s1 & e1 & Hs & Hon1). rewrite Hs. cbn [bind fst snd].
+  apply IH; [apply (inv_qs U s t s1 e1 ND Ht HI Hs)|assumption].
+Qed.
+
+Definition benign {A} (o : outcome A) : Prop :=
+  match o with Ok _ | AssertStop _ => True | _ => False end.
+
+Lemma qs_benign t s : wheld s = false -> benign (wstep t CQsCall s).
+Proof.
+  intros Hh. unfold wstep, w_step, w_qs.
+  destruct (acked (wa s t) =? 0); [exact I|]. cbn [enter_quiescent wa wd].
+  repeat match goal with
+  | |- context [guarded _ _ ?x _] => rewrite (guarded_free x) by (cbn; exact Hh); cbn [bind]
+  | |- context [if ?b then _ else _] => destruct b eqn:?
+  end; exact I.
+Qed.
+
+Lemma qb_loop_benign U t target : NoDup U -> In t U -> forall fuel s acc,
+  Inv U s ->
+  match qb_loop [MLock] [MUnlock] fuel t target s acc with
+  | Blocked | UB _ => False | _ => True end.
+Proof.
+  intros ND Ht. induction fuel as [|f IH]; intros s acc HI; cbn [qb_loop]; [exact I|].
+  destruct (ctr (wd s) <? target); [|exact I].
+  change (w_qs [MLock] [MUnlock] t s) with (wstep t CQsCall s).
+  pose proof (qs_benign t s (i_held _ _ (proj1 HI))) as B.
+  destruct (wstep t CQsCall s) as [[s1 e1]|l| |w|] eqn:Hs; cbn [bind]; try exact I; try contradiction.
+  apply IH. apply (inv_qs U s t s1 e1 ND Ht HI Hs).
+Qed.
+
+Lemma step_benign U s t c :
+  NoDup U -> In t U -> Inv U s ->
+  match wstep t c s with
+  | Blocked | UB _ => False
+  | OutOfFuel => c = CQBarrier
+  | _ => True end.
+Proof.
+  intros ND Ht HI. pose proof (i_held _ _ (proj1 HI)) as Hh. destruct c.
+  - unfold wstep, w_step, w_online. destruct (negb (acked (wa s t) =? 0)); [exact I|].
+    rewrite guarded_free by exact Hh.
+    repeat match goal with
+    | |- context [if ?b then _ else _] => destruct b eqn:?; cbn [bind]
+    end; exact I.
+  - unfold wstep, w_step, w_offline. destruct (acked (wa s t) =? 0); [exact I|].
+    cbn [enter_quiescent wa wd]. destruct (deferred (wa s t)); [exact I|].
+    rewrite guarded_free by (cbn; exact Hh).
+    repeat match goal with
+    | |- context [if ?b then _ else _] => destruct b eqn:?; cbn [bind]
+    end; exact I.
+  - pose proof (qs_benign t s Hh) as B. destruct (wstep t CQsCall s); try exact I; contradiction.
+  - unfold wstep, w_step, w_await. cbn [raise_desired]. destruct (negb (wtarget s n =? 0)); exact I.
+  - unfold wstep, w_step, w_run. destruct (fire true (ctr (wd s)) t (wtarget s) (pending (wa s t))) as [[? ?] ?]. exact I.
+  - unfold wstep, w_step, w_qbarrier. cbn [raise_desired].
+    match goal with |- context [qb_loop _ _ _ _ ?tg ?x _] => set (s1 := x) end.
+    assert (HI1 : Inv U s1).
+    { destruct HI as (HC & HK & HP). split; [|split].
+      - apply (core_ext U s); try reflexivity; [assumption|apply HC|intros; split; reflexivity].
+      - apply (k_frame s s1 HK). cbn. auto.
+      - apply (p_frame s s1 HP); try reflexivity; unfold s1; cbn; lia. }
+    pose proof (qb_loop_benign U t (ctr (wd s) + 2) ND Ht qb_fuel s1 [] HI1) as B.
+    destruct (qb_loop [MLock] [MUnlock] qb_fuel t (ctr (wd s) + 2) s1 []); try exact I; try contradiction. reflexivity.
+Qed.
+
+Theorem wo_outcomes U s t c :
+  NoDup U -> few U -> In t U -> Inv U s ->
+  match wstep t c s with
+  | Ok (s', _) => wheld s' = false
+  | AssertStop _ => precondition_violated s t c
+  | Blocked => False
+  | UB _ => False
+  | OutOfFuel => c = CQBarrier
+  end.
+Proof.
+  intros ND HB Ht HI.
+  destruct (wstep t c s) as [[s' evs]|l| |w|] eqn:H.
+  - apply (step_inv U s t c s' evs ND HB Ht HI H).
+  - destruct HI as (HC & HK & HP). destruct c; unfold wstep, w_step in H.
+    + unfold w_online in H. destruct (negb (acked (wa s t) =? 0)) eqn:E0.
+      * cbn. apply onl_true. lia.
+      * exfalso. rewrite guarded_free in H by apply HC.
+        assert (Hoff : onl s t = false) by (apply onl_false; lia).
+        pose proof (cf_nagents_room U s t HC ND Ht Hoff) as Hroom.
+        assert (Hinc : inc32 (nagents (wd s)) = nagents (wd s) + 1).
+        { unfold inc32, few in *. destruct (nagents (wd s) =? 4294967295) eqn:E; [lia|reflexivity]. }
+        rewrite Hinc in H. pose proof (cf_toack_le U s HC).
+        destruct (nagents (wd s) + 1 =? 1) eqn:E1; [|cbn in H; discriminate].
+        destruct (negb (toack (wd s) =? 0)) eqn:E2; [lia|cbn in H; discriminate].
+    + unfold w_offline in H. destruct (acked (wa s t) =? 0) eqn:E0.
+      * cbn. left. apply onl_false. lia.
+      * cbn [enter_quiescent wa wd] in H. destruct (deferred (wa s t)) eqn:Ed; [cbn; now right|].
+        exfalso. rewrite guarded_free in H by (cbn; apply HC). cbn [enter_quiescent wd wa] in H.
+        assert (Hon : onl s t = true) by (apply onl_true; lia).
+        destruct (negb (acked (wa s t) =? ctr (wd s))) eqn:E1; [|cbn in H; discriminate].
+        destruct (i_j1 _ _ HC t Hon) as [F|F]; [lia|].
+        destruct (negb (acked (wa s t) + 1 =? ctr (wd s))) eqn:E2; [lia|].
+        destruct (toack (wd s) =? 1); cbn in H; discriminate.
+    + cbn. destruct (onl s t) eqn:Hon; [|reflexivity]. exfalso.
+      destruct (qs_outcome U s t HC ND Ht Hon) as (s1 & e1 & Hs & _). unfold wstep, w_step in Hs. congruence.
+    + unfold w_await in H. cbn [raise_desired] in H.
+      destruct (negb (wtarget s n =? 0)) eqn:E0; [cbn; lia|discriminate].
+    + unfold w_run in H. destruct (fire true (ctr (wd s)) t (wtarget s) (pending (wa s t))) as [[? ?] ?]. discriminate.
+    + cbn. destruct (onl s t) eqn:Hon; [|reflexivity]. exfalso.
+      unfold w_qbarrier in H. cbn [raise_desired] in H.
+      match type of H with qb_loop _ _ _ _ ?tg ?x _ = _ => set (s1 := x) in * end.
+      assert (HI1 : Inv U s1).
+      { split; [|split].
+        - apply (core_ext U s); try reflexivity; [assumption|apply HC|intros; split; reflexivity].
+        - apply (k_frame s s1 HK). cbn. auto.
+        - apply (p_frame s s1 HP); try reflexivity; unfold s1; cbn; lia. }
+      destruct (qb_loop_outcome U t (ctr (wd s) + 2) ND Ht qb_fuel s1 [] HI1 Hon) as [(s2 & e2 & F)|F]; congruence.
+  - pose proof (step_benign U s t c ND Ht HI) as B. now rewrite H in B.
+  - pose proof (step_benign U s t c ND Ht HI) as B. now rewrite H in B.
+  - pose proof (step_benign U s t c ND Ht HI) as B. now rewrite H in B.
 Qed.
